@@ -199,6 +199,11 @@ def shadow_case(rnd, how):
         t.files[VR + "/ext/cfg.inc/keep.txt"] = [line("blank")]
         t.files[VR + "/proj/ipm/cfg.inc"] = snip
         t.files[main] = [line("includepath", p="ipm", abs=False), instr("nop"), line("include", p="cfg.inc", abs=False), instr("ret")]
+    elif how == "file-as-dir":
+        # the operand has a directory part; where the search looks first, a regular file has the name of that directory
+        t.files[VR + "/ext/lib"] = [line("blank")]
+        t.files[VR + "/proj/ipm/lib/cfg.inc"] = snip
+        t.files[main] = [line("includepath", p="ipm", abs=False), instr("nop"), line("include", p="lib/cfg.inc", abs=False), instr("ret")]
     else:
         # next to the including file there is a directory of that name; the file is in the caller-supplied directory
         t.files[VR + "/proj/cfg.inc/keep.txt"] = [line("blank")]
@@ -259,7 +264,7 @@ def check(prop, tier, seed):
         for how in ("flat", "nested"):
             t, main, flat = twice_case(rnd, how)
             cases.append((t, main, flat, False))
-        for how in ("caller", "beside"):
+        for how in ("caller", "beside", "file-as-dir"):
             t, main, flat = shadow_case(rnd, how)
             cases.append((t, main, flat, False))
         for boundary in (8192, 16384, 4096, 65536):
